@@ -203,9 +203,12 @@ Section WithMatch.
     /\ (forall e, In e (plan_pre p) -> is_report_ev e = false)
     /\ has_tx (plan_pre p) = negb (prep_fails b) && tx_ok a b
     /\ ( (* send_bundle returned: 'forward' recorded *)
-         (prep_fails b = false /\ plan_acts p = add AFwd acts /\ plan_reason p = rsn)
-         \/ (* an exception: 'delete' / NO_ROUTE recorded, nothing reached a CL *)
-         (plan_acts p = add ADel acts /\ plan_reason p = Some fwd_fail_reason /\ has_tx (plan_pre p) = false) ).
+         (prep_fails b = false /\ plan_acts p = add AFwd acts /\ plan_reason p = rsn
+            /\ (tx_ok a b = true
+                \/ exists k, send_path a (b_dst b) (b_size b) (has_flag (b_flags b) FLAG_NO_FRAGMENT) (is_frag b) (b_fragfeas b)
+                             = SentFrags k false))
+         \/ (* an exception: 'forward' withdrawn, 'delete' / NO_ROUTE recorded, nothing reached a CL *)
+         (plan_acts p = add ADel (remove AFwd acts) /\ plan_reason p = Some fwd_fail_reason /\ has_tx (plan_pre p) = false) ).
   Proof.
     unfold BpAgent.fwd_plan, prep_fails, plan_agent, plan_cur, plan_acts, plan_reason, plan_pre, tx_ok.
     destruct (b_prep b =? 1) eqn:P1; cbn [fst snd orb negb andb].
@@ -219,9 +222,11 @@ Section WithMatch.
       rewrite Hsp.
       destruct (send_path a (b_dst b) (b_size b) (has_flag (b_flags b) FLAG_NO_FRAGMENT) (is_frag b) (b_fragfeas b)) as [k|k [|]|] eqn:S;
         cbn [fst snd]; (repeat split; auto;
-          [ intros H; apply N.eqb_eq in T0; contradiction
-          | intros e [E|[]]; subst; reflexivity
-          | intros e [E|[]]; subst; reflexivity ]).
+          first [ (intros H; apply N.eqb_eq in T0; contradiction)
+                | (intros e [E|[]]; subst; reflexivity)
+                | (left; repeat split; auto; left; reflexivity)
+                | (left; repeat split; auto; right; eexists; reflexivity)
+                | (right; repeat split; auto) ]).
     - (* creation time known: bundle age block added *)
       destruct (b_prep b =? 2) eqn:P2; cbn [fst snd].
       { repeat split; auto; try (intros; contradiction). }
@@ -231,8 +236,10 @@ Section WithMatch.
       rewrite Hsp.
       destruct (send_path a (b_dst b) (b_size b) (has_flag (b_flags b) FLAG_NO_FRAGMENT) (is_frag b) (b_fragfeas b)) as [k|k [|]|] eqn:S;
         cbn [fst snd]; (repeat split; auto;
-          [ intros e [E|[]]; subst; reflexivity
-          | intros e [E|[]]; subst; reflexivity ]).
+          first [ (intros e [E|[]]; subst; reflexivity)
+                | (left; repeat split; auto; left; reflexivity)
+                | (left; repeat split; auto; right; eexists; reflexivity)
+                | (right; repeat split; auto) ]).
   Qed.
 
   Lemma fwd_plan_has_tx a b acts rsn :
@@ -372,8 +379,11 @@ Section WithMatch.
       /\ b_src cur = b_src b /\ b_rpt cur = b_rpt b /\ b_flags cur = b_flags b /\ (b_time b <> 0 -> cur = b)
       /\ ( (cur = b /\ acts' = acts /\ rsn' = rsn /\ (mem ADel acts = true \/ mem ADlv acts = true))
            \/ (mem ADel acts = false /\ mem AFwd acts = true /\ acts' = add AFwd acts /\ rsn' = rsn
-                 /\ prep_fails b = false)
-           \/ (mem ADel acts = false /\ mem AFwd acts = true /\ acts' = add ADel acts /\ rsn' = Some fwd_fail_reason
+                 /\ prep_fails b = false
+                 /\ (has_tx (snd (final a b acts rsn c)) = true
+                     \/ exists k, send_path a (b_dst b) (b_size b) (has_flag (b_flags b) FLAG_NO_FRAGMENT) (is_frag b) (b_fragfeas b)
+                                  = SentFrags k false))
+           \/ (mem ADel acts = false /\ mem AFwd acts = true /\ acts' = add ADel (remove AFwd acts) /\ rsn' = Some fwd_fail_reason
                  /\ has_tx (snd (final a b acts rsn c)) = false) ).
   Proof.
     intros H. pose proof (final_has_tx a b acts rsn c) as Htxall.
@@ -401,8 +411,12 @@ Section WithMatch.
         apply finish_report_in in H. rewrite Hnode, Hn in H.
         eexists _, (plan_cur (fwd_plan a1 b acts rsn)), (plan_acts (fwd_plan a1 b acts rsn)), (plan_reason (fwd_plan a1 b acts rsn)).
         split; [exact H|]. repeat (split; [assumption|]).
-        destruct Hcase as [(Hp & Ha & Hr)|(Ha & Hr & Hx)].
-        * right; left. repeat split; auto.
+        destruct Hcase as [(Hp & Ha & Hr & Hok)|(Ha & Hr & Hx)].
+        * right; left. repeat (split; [auto; fail|]).
+          destruct Hok as [Hok|(k0 & Hok)].
+          -- left. rewrite Htxall. cbn [negb andb]. rewrite Hp. cbn [negb andb].
+             rewrite <- (tx_ok_tx a a1 b Ht). exact Hok.
+          -- right. exists k0. rewrite <- (send_path_tx a a1) by exact Ht. exact Hok.
         * right; right. repeat split; auto.
           rewrite Htxall. cbn [negb andb]. rewrite <- (tx_ok_tx a a1 b Ht), <- Hptx. exact Hx.
   Qed.
@@ -929,17 +943,18 @@ Section WithMatch.
   Qed.
 
   (** The asserted statuses are exactly the requested ones that occurred - provided the bundle is not a
-      fragment routed to delivery (whose actions the reassembly step clears) and a bundle routed to
-      'forward' did reach a CL.  Without the last premise the statement is false (see
-      [asserted_occurred_refuted] in Props/C19.v): the RX routing step has already recorded 'forward'. *)
+      fragment routed to delivery (whose actions the reassembly step clears) and the fragment step did not
+      take the bundle over on a route whose CL is not attached (then 'forward' is recorded although every
+      fragment fails in its own [send_bundle]; see [asserted_occurred_refuted]). *)
   Theorem asserted_occurred_partial a b r :
     report_in r (snd (fst (recv_core a b))) ->
     mem ADlv (route_actions a b) && is_frag b = false ->
-    (mem AFwd (route_actions a b) = true -> has_tx (snd (fst (recv_core a b))) = true) ->
+    (forall k, send_path a (b_dst b) (b_size b) (has_flag (b_flags b) FLAG_NO_FRAGMENT) (is_frag b) (b_fragfeas b)
+               <> SentFrags k false) ->
     forall s, asserted r s = requested b s && occurred (snd (fst (recv_core a b))) s.
   Proof.
-    intros Hrep Hnf Hfwd s.
-    destruct (recv_core_report a b r Hrep) as (_ & a' & acts & rsn & c & Hev & _ & _ & [(Hc & _)|(_ & Ha & Hr & Hcc)]).
+    intros Hrep Hnf Hnc s.
+    destruct (recv_core_report a b r Hrep) as (_ & a' & acts & rsn & c & Hev & _ & Htx' & [(Hc & _)|(_ & Ha & Hr & Hcc)]).
     { rewrite Hnf in Hc. discriminate. }
     rewrite Hev in *.
     pose proof (final_has_deliver a' b acts rsn c) as Hd.
@@ -948,6 +963,9 @@ Section WithMatch.
     rewrite (create_report_asserted _ _ _ _ _ _ s Hcr).
     assert (Hreq : requested cur s = requested b s) by (unfold requested; rewrite Hfl; reflexivity).
     rewrite Hreq. clear Hreq Hcr.
+    assert (Hnc' : forall k, send_path a' (b_dst b) (b_size b) (has_flag (b_flags b) FLAG_NO_FRAGMENT) (is_frag b) (b_fragfeas b)
+                             <> SentFrags k false)
+      by (intros k; rewrite (send_path_tx a a') by exact Htx'; apply Hnc).
     remember (snd (final a' b acts rsn c)) as evs eqn:Eevs. clear Eevs Hev Hrep.
     unfold BpAgent.sec_step in Ha, Hcc.
     destruct (route_actions_shape a b) as [Hs|(x & Hx & Hs)]; rewrite Hs in *.
@@ -955,83 +973,16 @@ Section WithMatch.
       destruct (b_sec b); cbn in Ha, Hcc; subst acts c; cbn in Horigin;
         destruct Horigin as [(_ & _ & _ & [H|H])|[(_ & H & _)|(_ & H & _)]]; discriminate.
     - destruct x; try (exfalso; apply Hx; reflexivity);
-        destruct (b_sec b); cbn in Ha, Hcc, Hfwd; subst acts c; cbn in Horigin, Ht;
-        destruct Horigin as [(_ & Hacts & _ & [H|H])|[(_ & H & Hacts & _)|(_ & H & Hacts & _ & Hx2)]];
+        destruct (b_sec b); cbn in Ha, Hcc; subst acts c; cbn in Horigin, Ht;
+        destruct Horigin as [(_ & Hacts & _ & [H|H])|[(_ & H & Hacts & _ & _ & Hok)|(_ & H & Hacts & _ & Hx2)]];
         try discriminate; subst acts';
-        first [specialize (Hfwd eq_refl) | clear Hfwd]; try congruence;
-        destruct s; unfold occurred; rewrite ?Hd, ?Hfwd, ?Ht;
-        cbn [add mem existsb action_eqb orb andb negb app];
+        try (destruct Hok as [Hok|(k0 & Hok)]; [|exfalso; exact (Hnc' k0 Hok)]);
+        destruct s; unfold occurred;
+        try (match goal with H0 : has_tx evs = true |- _ => rewrite H0 end);
+        try (match goal with H0 : has_tx evs = false |- _ => rewrite H0 end);
+        rewrite ?Hd, ?Ht;
+        cbn [add mem existsb action_eqb orb andb negb app remove filter];
         try (match goal with |- context [requested b ?z] => destruct (requested b z) end); reflexivity.
-  Qed.
-
-  Lemma reports_of_in evs r : In r (reports_of evs) <-> report_in r evs.
-  Proof.
-    unfold reports_of, report_in. rewrite in_flat_map. split.
-    - intros (e & He & Hr). destruct e; cbn in Hr; try contradiction; destruct Hr as [Hr|[]]; subst; eauto.
-    - intros (s & k & [H|H]); eexists; (split; [exact H|]); left; reflexivity.
-  Qed.
-
-  Lemma mem_recv_route a b : mem ARecv (route_actions a b) = true.
-  Proof. destruct (route_actions_shape a b) as [H|(x & _ & H)]; rewrite H; reflexivity. Qed.
-
-  Lemma mem_recv_sec a b : mem ARecv (fst (sec_step b (route_actions a b))) = true.
-  Proof.
-    unfold BpAgent.sec_step. destruct (b_sec b); [|apply mem_recv_route].
-    destruct (mem ADlv (route_actions a b)); [|apply mem_recv_route].
-    cbn [fst]. rewrite mem_add, mem_remove, mem_recv_route. reflexivity.
-  Qed.
-
-  Lemma finish_attempt a sub cur acts rsn :
-    b_rpt cur <> EID_NONE -> mem ARecv acts = true -> requested cur ARecv = true ->
-    exists e, In e (snd (finish a sub cur acts rsn)) /\ is_report_ev e = true.
-  Proof.
-    intros Hr Hm Hq.
-    assert (Hne : create_report (a_node a) (a_now a, a_tsn a) cur acts rsn <> None).
-    { apply create_report_iff. split; [exact Hr|]. exists ARecv. split; [apply mem_In; exact Hm | exact Hq]. }
-    destruct (finish_shape a sub cur acts rsn) as [[_ [_ Hc]]|[r0 [_ [_ [[k [H _]]|[[k H]|[H _]]]]]]].
-    - contradiction.
-    - rewrite H. eexists. split; [left; reflexivity|reflexivity].
-    - rewrite H. eexists. split; [left; reflexivity|reflexivity].
-    - rewrite H. eexists. split; [left; reflexivity|reflexivity].
-  Qed.
-
-  (** If a reception report is requested, a report-to endpoint is named and the bundle reaches a final
-      disposition (deleted, delivered or taken for forwarding), a status report is built and handed to
-      [send_bundle].  (Not so for bundles matching no route and for fragments routed to delivery, see
-      Props/C19.v.) *)
-  Theorem report_attempted_if a b :
-    accepted a b = true ->
-    mem ADlv (route_actions a b) && is_frag b = false ->
-    b_rpt b <> EID_NONE -> requested b ARecv = true ->
-    mem ADel (fst (sec_step b (route_actions a b))) || mem ADlv (fst (sec_step b (route_actions a b)))
-      || mem AFwd (fst (sec_step b (route_actions a b))) = true ->
-    exists e, In e (snd (fst (recv_core a b))) /\ is_report_ev e = true.
-  Proof.
-    intros Hacc Hnf Hr Hq Hdisp.
-    rewrite (recv_core_accepted a b Hacc), Hnf. cbn [fst snd].
-    set (acts := fst (sec_step b (route_actions a b))) in *.
-    set (rsn := snd (sec_step b (route_actions a b))).
-    assert (Hm : mem ARecv acts = true) by apply mem_recv_sec.
-    rewrite final_eq.
-    destruct (mem ADel acts) eqn:Hdel; cbn [snd].
-    - destruct (finish_attempt (seen_add a b) b b acts rsn Hr Hm Hq) as (e & He & Hk).
-      exists e. split; [apply in_or_app; right; exact He | exact Hk].
-    - destruct (mem ADlv acts) eqn:Hdlv.
-      + destruct (finish_attempt (seen_add a b) b b acts rsn Hr Hm Hq) as (e & He & Hk).
-        exists e. split; [apply in_or_app; right; apply in_or_app; left; exact He | exact Hk].
-      + cbn in Hdisp. rewrite Hdisp. cbn [app].
-        rewrite do_fwd_eq. cbn [snd].
-        pose proof (fwd_plan_spec (seen_add a b) b acts rsn) as Hs. cbv zeta in Hs.
-        destruct Hs as (_ & _ & _ & _ & _ & Hrpt & Hfl & _ & _ & _ & _ & _ & Hcase).
-        assert (Hm' : mem ARecv (plan_acts (fwd_plan (seen_add a b) b acts rsn)) = true).
-        { destruct Hcase as [(_ & Ha & _)|(Ha & _)]; rewrite Ha, mem_add, Hm; reflexivity. }
-        assert (Hq' : requested (plan_cur (fwd_plan (seen_add a b) b acts rsn)) ARecv = true)
-          by (unfold requested; rewrite Hfl; exact Hq).
-        rewrite <- Hrpt in Hr.
-        destruct (finish_attempt (plan_agent (fwd_plan (seen_add a b) b acts rsn)) b _ _
-                                 (plan_reason (fwd_plan (seen_add a b) b acts rsn)) Hr Hm' Hq') as (e & He & Hk).
-        exists e. split; [|exact Hk].
-        repeat (apply in_or_app; right). exact He.
   Qed.
 End WithMatch.
 
@@ -1052,18 +1003,27 @@ Definition w_rpt_route : txroute := mkTx 1000 true None 0.
 Definition w_fwd_route : txroute := mkTx 1001 true None 0.
 Definition w_events (a : agent) (b : bundle) : list event := snd (fst (recv_core w_matches a b)).
 
-(** Forwarding fails (no transmit route for the destination), yet the report asserts 'forwarded'. *)
+(** The fragment step takes the bundle over (MTU 60 < size 95, feasible) on a route whose CL is not
+    attached: every fragment fails in [send_bundle], nothing reaches a CL, yet 'forwarded' is reported. *)
 Lemma asserted_occurred_refuted :
   exists a b r,
     In r (reports_of (w_events a b))
     /\ mem ADlv (route_actions w_matches a b) && is_frag b = false
     /\ requested b AFwd = true
     /\ asserted r AFwd = true /\ occurred (w_events a b) AFwd = false
-    /\ asserted r ADel = true.
+    /\ asserted r ADel = false.
 Proof.
-  exists (w_agent [(0, AFwd)] [w_rpt_route]), (w_bundle 1000 1 None). eexists.
+  exists (w_agent [(0, AFwd)] [w_rpt_route; mkTx 1001 false (Some 60) 0]), (w_bundle 1000 1 None). eexists.
   split; [vm_compute; left; reflexivity|]. vm_compute. repeat split.
 Qed.
+
+(** A forward that fails outright (no transmit route) is reported as deleted and NOT as forwarded. *)
+Lemma failed_forward_reported_deleted_only :
+  let a := w_agent [(0, AFwd)] [w_rpt_route] in
+  let b := w_bundle 1000 1 None in
+  map (fun r => (map (asserted r) [ARecv; AFwd; ADlv; ADel], r_reason r)) (reports_of (w_events a b))
+  = [([true; false; false; true], fwd_fail_reason)].
+Proof. vm_compute. reflexivity. Qed.
 
 (** A forwarded bundle with creation time zero: the report names the rewritten timestamp. *)
 Lemma subject_refuted :
@@ -1124,7 +1084,8 @@ Proof. intros H. apply reports_of_in in H. apply (forwarded_not_deleted matches 
 Lemma asserted_occurred_partial_r matches a b r :
   In r (reports_of (snd (fst (recv_core matches a b)))) ->
   mem ADlv (route_actions matches a b) && is_frag b = false ->
-  (mem AFwd (route_actions matches a b) = true -> has_tx (snd (fst (recv_core matches a b))) = true) ->
+  (forall k, send_path matches a (b_dst b) (b_size b) (has_flag (b_flags b) FLAG_NO_FRAGMENT) (is_frag b) (b_fragfeas b)
+             <> SentFrags k false) ->
   forall s, asserted r s = requested b s && occurred (snd (fst (recv_core matches a b))) s.
 Proof. intros H. apply reports_of_in in H. apply (asserted_occurred_partial matches a b r H). Qed.
 
